@@ -70,6 +70,15 @@ pub fn run_c03(p: &mut Prng, _t: Tier, i: usize, sink: &mut Sink) {
         let via = if p.chance(1, 4) { "struct" } else { "new" };
         // when the key pair came from gen_keypair the pk slot is uncompressed, struct delivery is fine
         ops.push(verify_op(&pfx, sess.id.is_some(), via));
+        // history: the same key signs again (same message or another one) with a fresh script
+        if p.chance(1, 4) {
+            if p.chance(1, 2) {
+                ops.push(set(&format!("{pfx}.msg"), &msg_class(p, 200)));
+            }
+            let idref: Value = if sess.id.is_some() { json!(format!("{pfx}.id")) } else { Value::Null };
+            ops.push(json!({"op":"sm2.sign","impl":signer,"d":format!("{pfx}.d"),"id":idref,"msg":format!("{pfx}.msg"),"sig":format!("{pfx}.sig"),"rng":rng_json(&uniform_script(p, 1))}));
+            ops.push(verify_op(&pfx, sess.id.is_some(), via));
+        }
         queues.push(ops);
     }
     for op in interleave(p, queues) {
@@ -135,6 +144,16 @@ pub fn run_c04(p: &mut Prng, t: Tier, _i: usize, sink: &mut Sink) {
     }
     let has_id = a.id.is_some();
     let via0 = "new";
+    // pristine copies of what was sent: every faulted delivery is preceded and followed by the
+    // genuine one (history: success -> tampered -> success), so state the verifier might keep
+    // between calls is part of the schedule
+    for x in ["pk", "msg", "sig"] {
+        w.exec(json!({"op":"copy","from":format!("a.{x}"),"to":format!("a0.{x}")}));
+    }
+    if has_id {
+        w.exec(json!({"op":"copy","from":"a.id","to":"a0.id"}));
+    }
+    let genuine = verify_op("a0", has_id, "new");
     // the unfaulted delivery first (must be accepted: C03 completeness rides along)
     {
         let mut f = w.fork();
@@ -301,13 +320,15 @@ pub fn run_c04(p: &mut Prng, t: Tier, _i: usize, sink: &mut Sink) {
     }
     for br in branches {
         let mut f = w.fork();
+        f.exec(genuine.clone());
         for op in br {
             f.exec(op);
         }
+        f.exec(genuine.clone());
         sink.done(f);
     }
     if sink.samples.is_empty() {
-        w.samples.push(json!({"base_schedule": w.history, "then": "each fault of the menu on a fork, followed by sm2.verify"}));
+        w.samples.push(json!({"base_schedule": w.history, "then": "on a fork: genuine delivery, one fault of the menu, faulted delivery, genuine delivery again"}));
     }
     sink.done(w);
 }
